@@ -42,6 +42,12 @@ CLAIMED = {
         '(own dict, own incarnation lists, objects owned by it, the message and its arguments); the log parser opens on first sight with the role from the get_registry direction, forwards under the message own tag, and closes every known connection exactly once.',
    note='Assumed: separation (A-SEP: the record lists of controller / manager / connections are distinct objects, true by construction in the constructors), disseminator delivery, sink wiring of main.py. Non-interference between two connections is carried by the per-connection modifies clauses (frame obligations); the lift to arbitrary interleavings and a global disjointness invariant across all connections are argued, not machine-checked.',
    technique='contract-based deductive verification: data-structure invariants, ownership-based frame conditions, ghost separation parameter; z3'),
+ 'C19': dict(level='proof', design='6.C19',
+   text='_split_command (real nested loops, inner ones unrolled over the literal marker table): the split is at the first marker word (alias, or single-dash cluster ending in g/r), everything before is ours verbatim, everything after is forwarded verbatim and in order, no marker means no mode; '
+        '_strip_dashes removes exactly the leading dashes; _select_mode returns a mode iff exactly one of run/gdb/load/pipe is selected (gdb-plugin aside) and None on conflict or none. '
+        'run_gdb argv quoting: bounded stand-in (exhaustive over a small alphabet incl. quote and backslash) - it found a genuine defect, repaired in /repo by a fix: commit.',
+   note='parse_args itself (argparse wiring, -f/-b handling) is not yet under contract; clusters with g/r before the last letter are outside the precondition. The quoting clause is bounded, not proved.',
+   technique='contract-based deductive verification (loop invariant + unrolled literal loops) plus a bounded native stand-in for the argv quoting; z3'),
 }
 
 NA_REASON = 'not yet built in this session (machinery under construction); see DESIGN.md section 6'
